@@ -349,6 +349,7 @@ class World:
         self.cdelay = self.topo.get("cdelay", 80)       # ms from leaving the device to its confirm switch / event
         self.ready_checked = {}
         self.ready_numbers = {}
+        self.foreign_landed = {}
         self.pending_lost = 0   # balls an idle device has already taken off its count, not yet booked to the playfield
 
     # -- recording ----------------------------------------------------------------------------
@@ -617,8 +618,10 @@ class World:
         if self.count(d) == 0:
             return
         f = self.faults[d].pop(0) if self.faults[d] else ["ok", 50, 400, 300]
-        if v["kind"] == "entrance" and f[0] in ("stuck", "fallback"):
-            f = ["ok", 50, 400, 300]    # an entrance-counted device cannot notice either; not generated
+        if v["kind"] == "entrance" and f[0] in ("stuck", "fallback", "double"):
+            # an entrance-counted device cannot notice any of these (its count is entrances minus commanded ejects: a
+            # second ball kicked out by the same pulse leaves it one too high for ever, by design); not generated
+            f = ["ok", 50, 400, 300] if f[0] != "double" else ["ok"] + list(f[1:])
         kind = f[0]
         if kind == "stuck":
             self.log.append(["S", "stuck", d, d, self.now_us()])
@@ -647,7 +650,8 @@ class World:
                 self.at(f[3], self.pf_hit)
             return
         tid = self.now_us()
-        self.transit.append([d, dst, tid, False, False])
+        fl = self.foreign_landed.pop(dst, None)
+        self.transit.append([d, dst, tid, False, fl[1] if fl and dst != d and tid - fl[0] <= 500000 else False])
         self.seat_off(d, idx)
         if kind == "astray":
             # the ball leaves (and passes d's confirm switch / event) but never reaches the target: it ends on the playfield
@@ -679,15 +683,21 @@ class World:
         for x in self.transit:
             if x[0] == src and x[1] == dst and (tid is None or x[2] == tid):
                 self.transit.remove(x)
-                if (x[3] or src == "playfield") and src != dst and dst in self.devs and \
+                if (x[3] or x[4] or src == "playfield") and src != dst and dst in self.devs and \
                         self.devs[dst]["kind"] == "switch":
-                    # MPF had given up on this ball (or it rolls in from the playfield, unseen); now that it arrives it is
+                    # MPF had given up on this ball, or has already taken another ball for it (the chain continues), or it
+                    # rolls in from the playfield, unseen; now that it arrives it is
                     # matched with the next expected ball of the target: that ball's entry is consumed although it is
                     # physically still on its way
+                    flag = "pf" if src == "playfield" else True
                     for y in self.transit:
                         if y[1] == dst and y[0] not in ("playfield", dst) and not y[4]:
-                            y[4] = "pf" if src == "playfield" else True
+                            y[4] = flag
                             break
+                    else:
+                        # nothing on its way yet: MPF matches the ball only when it is counted (entrance_count_delay,
+                        # 500 ms, after it landed); a ball registered as incoming until then has its entry consumed
+                        self.foreign_landed[dst] = [self.now_us(), flag]
                 break
         free = [i for i, x in enumerate(self.occ[dst]) if not x]
         if not free:
@@ -1481,6 +1491,10 @@ def oracle_c04(case, out):
             fails.append({"sig": sig, "what": what})
 
     started = False
+    last_tick = None
+    if not out.get("error") and out.get("final") and not out["final"]["truth"]["transit"]:
+        last_tick = next((x for x in reversed(out["log"]) if x[0] == "T"), None)
+    unrestorable = 0    # lost_incoming_ball calls that found neither an eject to cancel nor an available ball
     total = case["topo"]["balls"] + case["topo"].get("loose", 0)
     for it in out["log"]:
         k = it[0]
@@ -1538,6 +1552,23 @@ def oracle_c04(case, out):
                         "an eject it bounced out of was booked)" % (snap["playfield"][0], where))
                 else:
                     add("playfield-balls-negative", "playfield.balls == %d %s" % (snap["playfield"][0], where))
+        if k == "L" and len(it) >= 6 and it[4] == "idle" and it[5] <= 0:
+            unrestorable += 1
+        if k == "T" and (it[2] or it is last_tick):
+            # available balls: at a rest point, and at the end of the run (the world has been quiet for the whole settle
+            # time; a device may still wait for a ball for ever), every -1 has had its +1: they sum to num_balls_known
+            snap = it[1]
+            excess = sum(snap[d][2] for d in devs) + snap["playfield"][1] - snap["known"]
+            if excess != 0 and excess == unrestorable:
+                # known: "Failed to restore the path": the lost ball is booked to playfield.available_balls, nothing is
+                # taken away (the ball counts are right)
+                add("available-balls-excess-after-unrestorable-incoming-loss",
+                    "t=%.3fs: the available balls sum to %d but num_balls_known=%d: lost_incoming_ball was "
+                    "called %d time(s) at an idle device without an available ball" %
+                    (it[4] / 1e6, excess + snap["known"], snap["known"], unrestorable))
+            elif excess != 0:
+                add("available-sum", "t=%.3fs: the available balls sum to %d but num_balls_known=%d" %
+                    (it[4] / 1e6, excess + snap["known"], snap["known"]))
         if k == "T" and it[2]:
             snap, truth = it[1], it[3]
             for d in devs:
